@@ -50,7 +50,13 @@ def run(chk, tier):
     import gpnext
     ngp = gpnext.run(chk, P, ["topology-xml.c"])
     chk.floor("R-GPNEXT", "imported identifier stores", ngp, 1)
-    chk.decided += ['an identifier imported from XML never leaves the gp_index allocator at or below it (boundary evaluation)',
+    chk.rule("R-UNIONLEVEL", "a helper that reads a type-specific attribute of every object of level i without looking at their type (discovered) is called only where the caller has tested, on every path, "
+             "the type of the first object of that very level (must-facts; the level index of the tested object and the argument are the same expression)")
+    import unionlevel
+    nul, ulh = unionlevel.run(chk, P)
+    chk.floor("R-UNIONLEVEL", "calls of level-wide attribute readers", nul, 1)
+    chk.decided += ['the dont_merge flag of a Group level is read from the level that is about to be merged (not from its neighbour): Groups that asked not to be merged survive the level filtering, and no non-Group attribute is read as a Group attribute',
+                    'an identifier imported from XML never leaves the gp_index allocator at or below it (boundary evaluation)',
                     "indexes into counted array fields stay below the count in every function that the bound analysis covers (19 functions frozen out of scope)",
                     'no pointer is used (or released again) after its release in any library function',
                     'type-specific attributes are accessed only under the matching object type in every self-discriminating function of the library',
